@@ -82,11 +82,14 @@ where
             self.data.push(None);
         }
 
+        // Only filling a previously-empty slot changes the number of items, so the
+        // size is incremented only then to stay accurate on overwrites.
+        if self.data[index].is_none() {
+            self.size += 1;
+        }
+
         // Actually write the data into the vector.
         self.data[index] = Some(value);
-
-        // Increment the size so it stays accurate
-        self.size += 1;
     }
 
     /// Gets the value in the map for the provided `key` or [`None`] if there is
@@ -132,7 +135,11 @@ where
 
         if index < self.data.len() {
             let value = self.data[index].take();
-            self.size -= 1;
+
+            // Only removing something that was present changes the number of items.
+            if value.is_some() {
+                self.size -= 1;
+            }
 
             value
         } else {
